@@ -12,6 +12,7 @@ CONSTANTS
   Burns = {}
   CellGrids = {}
 INVARIANT Conforms
+INVARIANT RefusedWhole
 INVARIANT Covered
 """
 
